@@ -65,7 +65,7 @@ def cases(draw):
         tasks.append({'pilot': bound, 'state': state, 'named': named})
     events = draw(st.lists(
         st.tuples(st.integers(0, n_p - 1),
-                  st.sampled_from(['step', 'step', 'DONE', 'FAILED', 'CANCELED']),
+                  st.sampled_from(['step', 'step', 'DONE', 'FAILED', 'CANCELED', 'remove']),
                   st.booleans()),      # full pilot document (as advance publishes finals) or short form
         min_size=1, max_size=10))
     return {'kind': 'pilots', 'n_pilots': n_p, 'tasks': tasks,
@@ -123,6 +123,8 @@ def run_case(case):
             return res
 
     ended = set()
+    removed = set()
+    removed_then_ended = False
     nt_alive_pilots = set()
     for k, task in enumerate(tasks):
         if bound_pid(k) and task.state not in rps.FINAL:
@@ -137,6 +139,18 @@ def run_case(case):
         p = pilots[idx % n_p]
         if p.uid in ended:
             continue            # the pilot manager never updates a final pilot again
+        if ev == 'remove':
+            # the application takes the pilot off the task manager; its tasks stay bound to it
+            # (what removal itself does to them is not judged here)
+            if p.uid in tm._pilots:
+                try:
+                    tm.remove_pilots(p.uid)
+                except Exception as e:              # noqa
+                    from .runner import exc_sig
+                    res.fail(exc_sig('remove_pilots_raised', e), repr(e))
+                    return res
+                removed.add(p.uid)
+            continue
         cur = P_ORDER.index(p.state)
         if ev == 'step':
             if cur + 1 >= len(P_ORDER):
@@ -166,6 +180,8 @@ def run_case(case):
         if tgt in rps.FINAL:
             ended.add(p.uid)
             n_ends += 1
+            if p.uid in removed:
+                removed_then_ended = True
         for k, task in enumerate(tasks):
             st0, ex0, exd0 = before[k]
             mine = (tgt in rps.FINAL and bound_pid(k) == p.uid
@@ -197,6 +213,8 @@ def run_case(case):
     res.label('ends=%d' % min(n_ends, 3), 'pilots=%d' % n_p)
     if n_ends >= 2:
         res.label('multi_end')
+    if removed_then_ended:
+        res.label('pilot_removed_from_tmgr_before_its_end')
     res.key = {'t': [(t['pilot'], t['state']) for t in case['tasks']],
                'e': case['events'], 'n': n_p}
     if any(len(e) > 2 and e[2] for e in case['events']):
